@@ -44,7 +44,7 @@ Inductive hop :=
 | HAbort (b k uid : list N)
 | HListParts (b k uid : list N) (marker limit : Z)
 | HListUploads (b pre : list N) (delim : option N) (key_marker id_marker : list N) (limit : Z)
-| HChunkedPut (b k stream : list N) (sched : list Z) (eofw : bool) (declared : Z) (payload : list N)
+| HChunkedPut (b k stream : list N) (sched : list Z) (eofw : bool) (declared : Z) (payload : list N) (m : meta)
 | HListVersions (b pre : list N) (delim : option N) (km vm : list N) (maxkeys : Z)
 | HPutRaw (b k : list N) (h : headers) (body : list N) (fail_after : option Z) (integrity : bool) (meta_limit : Z)
 | HPartRaw (b k uid pn_text : list N) (h : headers) (body : list N) (fail_after : option Z) (integrity : bool).
@@ -335,7 +335,7 @@ Definition up_step (md5 : list N -> list N) (c : config) (hs : hstate) (o : hop)
 Definition chunked_put_step (md5 : list N -> list N) (c : config) (hs : hstate) (o : hop) (ob : obs)
   : hstate * list (list N) :=
   match o with
-  | HChunkedPut b k stream sched eofw declared payload =>
+  | HChunkedPut b k stream sched eofw declared payload m =>
       let spec := if declared =? blen payload then [] else expect (negb (ok_status (ob_status ob))) "S:wrong-declared-length-accepted" in
       match ensure_bucket c (hs_model hs) b with
       | (s1, Some e) => (with_model hs s1, exp_err e ob false)
@@ -345,7 +345,7 @@ Definition chunked_put_step (md5 : list N -> list N) (c : config) (hs : hstate) 
           (* every backend reads the body with ReadAll(reader, declared) before storing *)
           match decode_readall r declared with
           | DOk p =>
-              match put_object s1 b k p (carry_meta s1 b k []) with
+              match put_object s1 b k p (carry_meta s1 b k m) with
               | (s2, _) => (with_model hs s2, exp_ok ob ++ expect (beq (ob_etag ob) (etag_of md5 p)) "S:put-etag" ++ spec)
               end
           | _ => (with_model hs s1, expect (negb (ob_panic ob)) "S:panic" ++
@@ -446,7 +446,7 @@ Definition hist_step (md5 : list N -> list N) (c : config) (hs : hstate) (o : ho
   match o with
   | HPutRaw _ _ _ _ _ _ _ | HPartRaw _ _ _ _ _ _ _ _ => raw_step md5 c hs o ob
   | HListVersions _ _ _ _ _ _ => versions_step md5 c hs o ob
-  | HChunkedPut _ _ _ _ _ _ _ => chunked_put_step md5 c hs o ob
+  | HChunkedPut _ _ _ _ _ _ _ _ => chunked_put_step md5 c hs o ob
   | HInitiate _ _ _ | HUploadPart _ _ _ _ _ | HComplete _ _ _ _ | HAbort _ _ _
   | HListParts _ _ _ _ _ | HListUploads _ _ _ _ _ _ => up_step md5 c hs o ob
   | _ => obj_step md5 c hs o ob
